@@ -319,6 +319,13 @@ SAN_ENV = {
 _SAN_RE = re.compile(rb"(AddressSanitizer|runtime error:|UndefinedBehaviorSanitizer|LeakSanitizer|Assertion .* failed|terminate called)")
 
 
+try:
+    import ctypes
+    _PRCTL = ctypes.CDLL(None, use_errno=True).prctl
+except Exception:                                    # no prctl: children are only ended by their own timeouts
+    _PRCTL = None
+
+
 def run(argv, stdin=None, cwd=None, env=None, timeout=20, as_limit=None, fsize=None, stdout=None, _retry=True):
     """Run one process; classify the outcome.  A run that does not finish within `timeout` is repeated once with four times the
     limit and that second outcome is returned: on a loaded machine (16 checks' worth of sanitizer builds) a slow run is not a hang,
@@ -331,6 +338,10 @@ def run(argv, stdin=None, cwd=None, env=None, timeout=20, as_limit=None, fsize=N
         e.update(env)
 
     def pre():
+        # the child is killed when the checker that started it dies (an outer timeout, a kill): a program that loops for ever must
+        # not outlive its run and load the machine for every later one
+        if _PRCTL is not None:
+            _PRCTL(1, int(signal.SIGKILL))          # PR_SET_PDEATHSIG
         if fsize is not None:
             signal.signal(signal.SIGXFSZ, signal.SIG_IGN)
             resource.setrlimit(resource.RLIMIT_FSIZE, (fsize, fsize))
